@@ -19,7 +19,15 @@ pub const PROPER_WORDS: &[&str] = &[
     "ZZ", "Topp", "Ωmega", "Жук",
 ];
 
+pub const FALLBACK: &[&str] = &[
+    "alpha", "bravo", "charlie", "delta", "echo", "foxtrot", "golf", "hotel", "india", "juliet", "kilo", "lima", "mike", "november",
+    "oscar", "papa",
+];
+
 pub fn check_pools() {
+    for w in FALLBACK {
+        assert!(!kw::is_keyword(w), "fallback word {} is a keyword", w);
+    }
     for w in SIMPLE.iter().chain(PROPER_WORDS.iter()) {
         assert!(!kw::is_keyword(w), "pool word {} is a keyword", w);
         assert!(w.chars().all(|c| c.is_alphabetic()));
@@ -66,7 +74,7 @@ pub fn distinct(t: &mut Tape, n: usize) -> Vec<Name> {
 
 fn fallback(i: usize) -> Name {
     // guaranteed fresh: not in any pool, not a keyword
-    const F: &[&str] = &["va", "vb", "vc", "vd", "ve", "vf", "vg", "vh", "vi", "vj", "vk", "vl", "vm", "vn", "vo", "vp"];
+    const F: &[&str] = FALLBACK;
     Name::Simple(format!("{}{}", F[i % F.len()], "q".repeat(i / F.len())))
 }
 
